@@ -160,6 +160,24 @@ claim(
     "DESIGN.md §2 C09",
 )
 
+claim(
+    "C14",
+    "abstract interpretation of dict shapes (must-key analysis with inter-procedural return / ensures / "
+    "returns-own-parameter summaries) over every public parser; provenance of parameter-entry dicts; "
+    "ast.arguments field coverage",
+    "Decides, on every return path of the nine public parsers (and the helpers whose result they return), "
+    "that the IR certainly has name, doc and params and no key outside the IntermediateRepr TypedDict; that "
+    "constant keys written into parameter entries are in {typ, doc, default, x_typ}; that a parameter entry "
+    "adopted from a foreign-vocabulary object (Column keywords, JSON property) passes a whitelist; that "
+    "names taken from source are stripped of leading asterisks; that function.parse reads every "
+    "parameter-carrying field of ast.arguments.",
+    "NOT decided: that a typ string parses as a Python expression, uniqueness of names coming out of free "
+    "text, that description values are str on every path (value level). Keys added inside loops/try bodies "
+    "are not counted as certainly present (may under-approximate must-keys -> exit 1 only when a key is "
+    "missing on a straight-line path).",
+    "DESIGN.md §2 C14",
+)
+
 
 def main():
     """write MANIFEST.json"""
